@@ -396,7 +396,7 @@ impl Monitor for C12 {
         let ml = if rng.chance(1, 10) { maxlen } else { 400.min(maxlen) };
         let (f1, f2, f3) = (rng.chance(1, 2), rng.chance(3, 4), rng.chance(1, 5));
         let fs = build_file(rng, nrec, ml, f1, f2, f3);
-        if rng.chance(1, 60) && !ctx.tiny() {
+        if rng.chance(1, 3000) && !ctx.tiny() {
             return self.file_case(ctx, rng, &fs);
         }
         let trunc = if rng.chance(1, 3) { Some(rng.usize(fs.file.len() + 1)) } else { None };
